@@ -1056,6 +1056,10 @@ template<class C, class K, class V, bool ORD, bool ISSET> struct EqCase
 		std::unique_ptr<C> A(asz ? sized<C>(asz, OrdTag()) : new C()), B;
 		std::vector<MK> oa = keys, ob = keys;
 		shuffle_vec(r, oa);
+		// pattern key-differs: in half of the pairs the entry whose key differs holds the default value (0 / ""), which a
+		// comparison through a defaulting lookup cannot tell from "absent"
+		int goneIdx = n > 0 ? (int)r.below((uint32_t)n) : -1;
+		if (pattern == 4 && goneIdx >= 0 && !ISSET && r.chance(0.5)) { ma[keys[goneIdx]] = MV(); c.count("eq.key-differs.default-value"); }
 		build(*A, ma, oa, false);
 		Model mb = ma;
 		switch (pattern) {
@@ -1103,7 +1107,7 @@ template<class C, class K, class V, bool ORD, bool ISSET> struct EqCase
 			break;
 		case 4: {
 			if (n == 0) { c.count("skipped"); return; }
-			MK gone = keys[r.below((uint32_t)n)], neu = rest[r.below((uint32_t)rest.size())];
+			MK gone = keys[goneIdx], neu = rest[r.below((uint32_t)rest.size())];
 			mb[neu] = mb[gone];
 			mb.erase(gone);
 			ob.clear();
@@ -1410,6 +1414,96 @@ static void mode_map_small(vf::Ctx& c)
 	if (c.want_sample() && seq.size() >= 3) c.sample(c.curdesc() + "; 3 insertion APIs; then 13 lookup keys (below/equal/between/above) x has, find, get, [], set, remove on clones");
 }
 
+
+// ------------------------------------------------------------------ converted clones: Map<K2,T2> -> Map<K,T> / Dic<T>
+// The result must be the mathematical map obtained by converting every pair (for keys that collide after conversion the
+// pair of the larger source key wins, as with successive set() calls in ascending source order), whatever the conversion
+// does to the key order.
+template<class K> struct ConvKey;
+template<> struct ConvKey<int> { typedef long long M; static long long of(int k) { return k; } static long long of(double k) { return (long long)(int)k; } static long long of(const String& k) { return (long long)(int)k; } static int mk(long long m) { return (int)m; } static long long of_back(int k) { return k; } static std::string show(long long m) { return vf::fmt("%lld", m); } };
+template<> struct ConvKey<short> { typedef long long M; static long long of(int k) { return (long long)(short)k; } static short mk(long long m) { return (short)m; } static long long of_back(short k) { return k; } static std::string show(long long m) { return vf::fmt("%lld", m); } };
+template<> struct ConvKey<double> { typedef double M; static double of(int k) { return (double)k; } static double mk(double m) { return m; } static double of_back(double k) { return k; } static std::string show(double m) { return vf::fmt("%g", m); } };
+template<> struct ConvKey<String> { typedef std::string M; static std::string of(int k) { return vf::fmt("%d", k); } static String mk(const std::string& m) { return String(m.c_str(), (int)m.size()); } static std::string of_back(const String& k) { return std::string(*k, k.length()); } static std::string show(const std::string& m) { return "\"" + m + "\""; } };
+
+template<class SRC, class DST, class K2, class K> static void convert_case(vf::Ctx& c, const char* what, const std::vector<K2>& srckeys)
+{
+	vf::Rng& r = c.rng;
+	typedef typename ConvKey<K>::M MK;
+	SRC src;
+	std::map<K2, int> ms;
+	std::vector<K2> order = srckeys;
+	shuffle_vec(r, order);
+	for (size_t i = 0; i < order.size(); i++) { int v = r.chance(0.2) ? 0 : (int)r.range(-1000, 1000); src[order[i]] = v; ms[order[i]] = v; }
+	std::map<MK, int> want;
+	for (typename std::map<K2, int>::iterator it = ms.begin(); it != ms.end(); ++it) want[ConvKey<K>::of(it->first)] = it->second;
+	std::string d = vf::fmt("%s from a source with %d keys {", what, (int)ms.size());
+	{ int k = 0; for (typename std::map<K2, int>::iterator it = ms.begin(); it != ms.end() && k < 12; ++it, ++k) d += vf::fmt("%g ", (double)it->first); }
+	c.desc(d + "}");
+	DST dst(src);
+	if (dst.length() != (int)want.size()) c.fail("convert.length", vf::fmt("length() = %d, %d distinct converted keys", dst.length(), (int)want.size()));
+	// enumeration: every entry exactly once, ascending
+	{
+		typename std::map<MK, int>::iterator it = want.begin();
+		int i = 0;
+		bool first = true;
+		MK prev = MK();
+		foreach2(K& k, const int& v, dst) {
+			MK mk = ConvKey<K>::of_back(k);
+			if (!first && !(prev < mk)) { c.fail("convert.enumeration-not-ascending", ConvKey<K>::show(prev) + " then " + ConvKey<K>::show(mk)); break; }
+			if (it == want.end()) { c.fail("convert.enumeration-too-long", vf::fmt("entry %d", i)); break; }
+			if (!(it->first == mk) || it->second != v) { c.fail("convert.enumeration-differs", vf::fmt("entry %d is ", i) + ConvKey<K>::show(mk) + vf::fmt("=%d, expected ", v) + ConvKey<K>::show(it->first) + vf::fmt("=%d", it->second)); break; }
+			prev = mk; first = false; ++it; ++i;
+		}
+	}
+	for (typename std::map<MK, int>::iterator it = want.begin(); it != want.end(); ++it) {
+		K k = ConvKey<K>::mk(it->first);
+		if (!dst.has(k)) c.fail("convert.lookup-misses-present-key", ConvKey<K>::show(it->first));
+		else if (dst.get(k, -777777) != it->second) c.fail("convert.lookup-value", ConvKey<K>::show(it->first));
+		c.evals(1);
+	}
+	// the converted map keeps working as a map: remove half of the keys, re-insert, compare with one built by set()
+	DST built;
+	for (typename std::map<MK, int>::iterator it = want.begin(); it != want.end(); ++it) built.set(ConvKey<K>::mk(it->first), it->second);
+	if (!(dst == built)) c.fail("convert.not-equal-to-map-with-same-contents", d);
+	int removed = 0;
+	for (typename std::map<MK, int>::iterator it = want.begin(); it != want.end();) {
+		if (r.chance(0.5)) { dst.remove(ConvKey<K>::mk(it->first)); want.erase(it++); removed++; } else ++it;
+	}
+	if (dst.length() != (int)want.size()) c.fail("convert.length-after-remove", vf::fmt("length() = %d after removing %d keys, model %d", dst.length(), removed, (int)want.size()));
+	for (typename std::map<MK, int>::iterator it = want.begin(); it != want.end(); ++it)
+		if (!dst.has(ConvKey<K>::mk(it->first))) { c.fail("convert.lookup-after-remove", ConvKey<K>::show(it->first)); break; }
+	c.count((std::string("convert.") + what).c_str());
+	c.distinct(vf::mix(vf::fnv(what), vf::fnv(d)));
+	if (c.want_sample()) c.sample(d);
+}
+
+static void mode_map_convert(vf::Ctx& c)
+{
+	vf::Rng& r = c.rng;
+	int n = r.chance(0.3) ? r.range(0, 3) : r.range(4, 60);
+	std::vector<int> ik;
+	std::set<int> seen;
+	int style = (int)r.below(4);
+	for (int tries = 0; (int)ik.size() < n && tries < 20 * n + 20; tries++) {
+		int k = style == 0 ? (int)r.range(0, 30) : style == 1 ? (int)r.range(-120, 120) : style == 2 ? (int)r.range(-70000, 70000) : (r.chance(0.5) ? (int)r.range(0, 12) : (int)r.range(32760, 32780) + (r.chance(0.3) ? 65536 : 0));
+		if (seen.insert(k).second) ik.push_back(k);
+	}
+	switch (c.idx % 6) {
+	case 0: convert_case<Map<int, int>, Map<String, int>, int, String>(c, "Map<int,int> -> Map<String,int>", ik); break;
+	case 1: convert_case<Map<int, int>, Dic<int>, int, String>(c, "Map<int,int> -> Dic<int>", ik); break;
+	case 2: convert_case<Map<int, int>, Map<short, int>, int, short>(c, "Map<int,int> -> Map<short,int>", ik); break;
+	case 3: convert_case<Map<int, int>, Map<double, int>, int, double>(c, "Map<int,int> -> Map<double,int>", ik); break;
+	case 4: {
+		std::vector<double> dk;
+		std::set<double> sd;
+		for (size_t i = 0; i < ik.size(); i++) { double x = ik[i] % 40 + (double)r.below(8) / 8.0; if (sd.insert(x).second) dk.push_back(x); }
+		convert_case<Map<double, int>, Map<int, int>, double, int>(c, "Map<double,int> -> Map<int,int>", dk);
+		break;
+	}
+	default: convert_case<Map<int, int>, Map<int, int>, int, int>(c, "Map<int,int> -> Map<int,int> (copy)", ik); break;
+	}
+}
+
 // ------------------------------------------------------------------ observation only: growth through one of two handles
 static void mode_shared_growth(vf::Ctx& c)
 {
@@ -1441,6 +1535,7 @@ int main(int argc, char** argv)
 	R.add("hashmap_remove_chain_head", mode_remove_chain_head, "stratum B: histories that remove the first node of a chain with successors");
 	R.add("eq", mode_eq, "pairs compared with ==; Map/Dic all patterns, hash containers: same layout or unequal content");
 	R.add("eq_order", mode_eq_order, "stratum B: equal hash containers / sets built in different orders or with different growth");
+	R.add("map_convert", mode_map_convert, "key- or value-type converting copies of a Map (order-changing and colliding conversions) against the converted model");
 	R.add("set_ops", mode_set_ops, "Set algebra in lock-step with std::set");
 	R.add("hashmap_shared_growth", mode_shared_growth, "observation: table growth through one of two handles (not planned)");
 	return R.main(argc, argv);
